@@ -118,7 +118,12 @@ def _cart(rng, tier):
          'label': lib.hx(_region(rng, 8192, rng.choice(kinds))) if rng.random() < 0.5 else None,
          'code': lib.hx(_code(rng, rng.choice(['plain', 'plain', 'allbytes', 'nofinal', 'empty', 'nl', 'crlf'])))}
     for s in ORDER:
-        c[s] = lib.hx(_region(rng, SIZES[s], rng.choice(kinds)))
+        if rng.random() < 0.2:
+            # derived from the library's own empty section (default, rotated by one record, ...): see c16.default_variants
+            from props import c16
+            c[s] = lib.hx(rng.choice(list(c16.default_variants(rng, s))))
+        else:
+            c[s] = lib.hx(_region(rng, SIZES[s], rng.choice(kinds)))
     return c
 
 
@@ -167,6 +172,14 @@ def generate(tier, rng):
     n = 24 if tier == 'quick' else 400
     for _ in range(n):
         yield _cart(rng, tier)
+    # carts whose regions all derive from the library's own empty sections (see c16.default_variants)
+    from props import c16
+    vs = {s: list(c16.default_variants(rng, s)) for s in ORDER}
+    for i in range(5):
+        c = _cart(rng, tier)
+        for s in ORDER:
+            c[s] = lib.hx(vs[s][i])
+        yield c
     yield {'kind': 'malformed'}
     yield {'kind': 'regex'}
     import os
